@@ -36,6 +36,9 @@ type hashOpaque struct{ Len int }
 type strOfFloat struct{ F float64 }
 type anyNumber struct{}
 
+// rangeOpen is the reference value of DATERANGE with a NULL bound (nil = NULL bound).
+type rangeOpen struct{ F, T any }
+
 func c18Scalar(v any) bool {
 	switch v.(type) {
 	case nil, string, float64, bool:
@@ -303,6 +306,11 @@ func c18Funcs(consts map[string]any, nilText bool) map[string]func(args []any) (
 		}
 		f, ok := str(a[0])
 		t, ok2 := str(a[1])
+		if (ok || a[0] == nil) && (ok2 || a[1] == nil) && !(ok && ok2) {
+			// a NULL bound: the statement says [f, t] - two positions; how a NULL bound is shown
+			// (NULL or empty text), or whether it is rejected, is left open
+			return rangeOpen{a[0], a[1]}, nil
+		}
 		if !ok || !ok2 {
 			return nil, unspec("DATERANGE(%T,%T)", a[0], a[1])
 		}
@@ -578,8 +586,15 @@ func genC18(t *rapid.T) any {
 			c.Direct = true
 		}
 	case "daterange":
-		f := rapid.SampledFrom(c18Strings).Draw(t, "f")
-		to := rapid.SampledFrom(c18Strings).Draw(t, "to")
+		var f, to any = rapid.SampledFrom(c18Strings).Draw(t, "f"), rapid.SampledFrom(c18Strings).Draw(t, "to")
+		switch rapid.IntRange(0, 7).Draw(t, "nullbound") { // an open range: one bound (or both) is NULL
+		case 0:
+			f = nil
+		case 1:
+			to = nil
+		case 2:
+			f, to = nil, nil
+		}
 		c.Expr = sq.Call("DATERANGE", b.arg(f, "f"), b.arg(to, "to"))
 		c.Direct = true
 	case "constant":
@@ -711,6 +726,21 @@ func c18Match(got any, want any) string {
 	}
 	got = val.Norm(got)
 	switch w := want.(type) {
+	case rangeOpen:
+		arr, ok := got.([]any)
+		if !ok || len(arr) != 2 {
+			return fmt.Sprintf("expected the two positions [from, to] of %s, got %s", c18Show(w), val.JSON(got))
+		}
+		for i, bound := range []any{w.F, w.T} {
+			if bound == nil {
+				if arr[i] != nil && arr[i] != "" {
+					return fmt.Sprintf("position %d of %s holds %s although that bound is NULL", i, c18Show(w), val.JSON(arr[i]))
+				}
+			} else if !val.Equal(arr[i], bound) {
+				return fmt.Sprintf("position %d: expected %s, got %s", i, val.JSON(bound), val.JSON(got))
+			}
+		}
+		return ""
 	case hashOpaque:
 		s, ok := got.(string)
 		if !ok || len(s) != w.Len || strings.Trim(s, "0123456789abcdef") != "" {
@@ -846,6 +876,10 @@ func c18Judge(c *C18Case, nilText bool) Result {
 			}
 		}
 	default:
+		if _, open := want.(rangeOpen); open && !out.OK() {
+			res.Labels = append(res.Labels, "daterange-null-bound:rejected")
+			return res // rejecting a NULL bound is left open by the statement
+		}
 		if !out.OK() {
 			res.Violation = fmt.Sprintf("%s\n  expected %s, got %s", ctx, c18Show(want), out.Describe())
 			return res
@@ -890,7 +924,7 @@ func c18Judge(c *C18Case, nilText bool) Result {
 				return res
 			}
 			switch v.(type) {
-			case encOpaque, hashOpaque, strOfFloat, anyNumber, exactInt:
+			case encOpaque, hashOpaque, strOfFloat, anyNumber, exactInt, rangeOpen:
 				return res
 			}
 			args[i] = val.Copy(v)
@@ -907,7 +941,9 @@ func c18Judge(c *C18Case, nilText bool) Result {
 		case werr == errNullOrFail && gerr == nil && got != nil:
 			res.Violation = fmt.Sprintf("%s: expected an error or NULL, got %s", dctx, val.JSON(val.Norm(got)))
 		case werr == nil && gerr != nil:
-			res.Violation = fmt.Sprintf("%s: expected %s, got error %v", dctx, c18Show(want), gerr)
+			if _, open := want.(rangeOpen); !open {
+				res.Violation = fmt.Sprintf("%s: expected %s, got error %v", dctx, c18Show(want), gerr)
+			}
 		case werr == nil:
 			if d := c18Match(got, want); d != "" {
 				res.Violation = fmt.Sprintf("%s: %s", dctx, d)
@@ -919,6 +955,8 @@ func c18Judge(c *C18Case, nilText bool) Result {
 
 func c18Show(v any) string {
 	switch w := v.(type) {
+	case rangeOpen:
+		return fmt.Sprintf("<[%s, %s] with a NULL bound shown as NULL or as empty text>", val.JSON(w.F), val.JSON(w.T))
 	case hashOpaque:
 		return fmt.Sprintf("<%d hex digits>", w.Len)
 	case encOpaque:
@@ -983,7 +1021,7 @@ func init() {
 			"HASH over scalars x {md5,sha1,sha256,sha512,unknown}; FIRST/LAST/ELEMENTAT over arrays (empty, nested, with NULLs and objects, NULL array, " +
 			"ARRAY(..) literals) x indexes {-2,-1,0,1,n-1,n,n+1,n+5}; UNWIND (also twice); ARRAY; CONCAT with NULLs; IF with boolean column / " +
 			"comparison / IS NULL conditions; TO_LOWER/TO_UPPER over multi-byte strings; CHANGETYPE double->string->double, engine-text->double->string, " +
-			"decimal text->double, integer from doubles and texts, array, unknown type names, NULL; DATERANGE; CONSTANT with WithConstants; every " +
+			"decimal text->double, integer from doubles and texts, array, unknown type names, NULL; DATERANGE incl. open ranges (a NULL bound keeps its position, shown as NULL or empty text, or is rejected); CONSTANT with WithConstants; every " +
 			"fixed-arity function with n-1, n+1, n+2 arguments; nested compositions). Arguments are placed in row columns or rendered as literals. " +
 			"Oracle: reference implementations of the stated contracts (opaque tokens for encoded/hashed text), evaluated on two equal rows; the exported Go " +
 			"function is also called directly (a panic is not an error). Non-trivial: an argument that is NULL, empty, nested, negative, fractional, " +
